@@ -6,16 +6,23 @@ PROPS["C20"] = dict(
          "spaces, inner and leading dots, unicode, up to 200 bytes, never '.', '..', NUL or '/'; contents empty / random bytes / zero runs / "
          "sizes around 4K, 32K, 64K / at most two files of about 1 MB; filter in {nil, path suffix, keep-only directory component, "
          "exclude directory component, reject all}; recursive flag; source dir spelled as a clean absolute path with or without ONE "
-         "trailing slash; destination pre-existing or not). Excluded as outside the documented domain: relative or unclean source paths, "
+         "trailing slash; destination absent, empty, or pre-populated with regular files at the relative paths of source files - longer, "
+         "shorter, same length, empty, arbitrary - and with unrelated files; optionally a second round: source files shrunk/grown/emptied/"
+         "rewritten/deleted, then ZipFolder+UnzipToFolder again into the same destination). Excluded as outside the documented domain: relative or unclean source paths, "
          "double slashes, symlinks, devices, unreadable files, backslashes in names, the archive placed inside the source dir. "
          "archive case = list of zip entries (name, kind file/dir/symlink mode bits, payload, stored or deflated) written with archive/zip, "
          "optionally with 1..3 corrupted bytes; names from '..', '.', empty and plain segments joined by '/' or '\\\\', up to 8 leading '../', "
          "absolute prefixes ('/', '//', the sandbox root, the destination itself), trailing slash, duplicates and file/dir clashes; the "
-         "exhaustive unit runs every ordered list of length <= 2 (thorough: <= 3) over a systematic alphabet of 65 hostile entries. non-trivial = tree with >= 1 file in a sub-directory and >= 1 empty or filtered-out file, or archive with >= 1 entry "
+         "exhaustive unit runs every ordered list of length <= 2 (thorough: <= 3) over a systematic alphabet of 65 hostile entries. non-trivial = tree with >= 1 file in a sub-directory and >= 1 empty or filtered-out file, or an "
+         "extraction over a longer file at the path of a selected one, or archive with >= 1 entry "
          "whose cleaned joined name leaves the destination; distinct = FNV hash of the JSON form of the case",
     assumptions=["oracle (a): map relPath->content of the regular files under the destination == the source's regular files for which "
                  "filter(clean source dir + '/' + relPath) is true (nil filter = all) and, when recursive is false, that sit directly in the "
-                 "source dir; directories (empty or not) are not compared; both calls must return nil",
+                 "source dir; directories (empty or not) are not compared; both calls must return nil. When the destination held regular files "
+                 "before the extraction (pre-populated, or left by round 1): every selected file must have exactly the source content afterwards; "
+                 "'nothing else' is judged on what the extraction adds - a file that was there before and is not selected is not an extra file, "
+                 "but must be byte-identical afterwards; pre-existing directories where a file must go (or files where a directory must go) are "
+                 "not generated",
                  "oracle (b): the destination is sandbox/d1/.../d8; (path, type, permission bits, and for non-directories size, mtime, content hash) "
                  "of everything in the sandbox outside the destination subtree - decoy files and directories at every level, the archive "
                  "itself - is identical before and after UnzipToFolder, whatever it returns; absolute targets outside the sandbox are watched "
@@ -26,8 +33,8 @@ PROPS["C20"] = dict(
                  "rapid only shrinks failures whose message is reproducible",
                  "Linux file system semantics (backslash is an ordinary name byte, names are case sensitive)"],
     units=[
-        dict(name="tree", run="^TestC20TreeRapid$", checks=(500, 2000), shards=(4, 16), timeout=(200, 1200), shrinktime=("15s", "40s")),
-        dict(name="archive", run="^TestC20ArchiveRapid$", checks=(1500, 10000), shards=(4, 16), timeout=(200, 1200), shrinktime=("15s", "40s")),
+        dict(name="tree", run="^TestC20TreeRapid$", checks=(400, 1500), shards=(4, 16), timeout=(200, 1200), shrinktime=("15s", "40s")),
+        dict(name="archive", run="^TestC20ArchiveRapid$", checks=(1500, 8000), shards=(4, 16), timeout=(200, 1200), shrinktime=("15s", "40s")),
         dict(name="hostile", run="^TestC20ArchiveExhaustive$", shards=(8, 16), timeout=(200, 1200)),
     ],
 )
